@@ -109,6 +109,37 @@ def connect_runs(ctx: Ctx):
     return n, bad
 
 
+def slow_connect_runs(ctx: Ctx):
+    """auto_connect=True, reply late in the listen window, appliance accepts the TCP connection but never answers: the device must still be
+    reported (with its advertised identity), however long the connect/refresh attempt takes."""
+    rng = ctx.rng
+    out = []
+    for k in range(ctx.pick(6, 80)):
+        idents = [rand_identity(rng, typ=0xAC, port=6444) for _ in range(rng.choice([1, 2]))]
+        plan = []
+        for j, ident in enumerate(idents):
+            ip = "10.5.%d.%d" % (k % 250, 1 + j)
+            plan.append((rng.choice([0.2, 2.5, 4.6, 4.9]), ip, 6445, build(rng, ident, ip, 2)))
+        plan.sort(key=lambda x: x[0])
+        v = disc.run_discovery(plan, auto_connect=True, tcp_devices=lambda loop, net: None)      # connects succeed, nobody answers
+        v.pop("devices", None)
+        out.append(v)
+    return out
+
+
+def hostname_runs(ctx: Ctx):
+    """discover_single() with a host NAME (or another non-numeric spelling) as the target: the device that answers is the result."""
+    rng = ctx.rng
+    out = []
+    for k, target in enumerate(["ac-bedroom.lan", "midea-ac.home.arpa", "localhost", "AC1", "192.168.7.255", "010.000.000.009"] * ctx.pick(1, 6)):
+        ident = rand_identity(rng)
+        ip = "10.6.%d.%d" % (k % 250, rng.randrange(1, 255))
+        v = disc.run_discovery([(0.3, ip, 6445, build(rng, ident, ip, rng.choice([2, 3])))], target=target, single=True)
+        v.pop("devices", None)
+        out.append(v)
+    return out
+
+
 def judge(ctx, vectors, prefix):
     import copy as _c
     cans = []
@@ -149,7 +180,7 @@ def mc(ctx, hosts, copies, name):
 def run(ctx: Ctx) -> int:
     ctx.mc("MC_Disc", "INIT Init\nNEXT Next\nINVARIANT RoundTrip\nCHECK_DEADLOCK FALSE\n", name="C17_mc_layout")
     mc(ctx, 3, 2, "C17_mc_run")
-    vs = runs(ctx)
+    vs = runs(ctx) + slow_connect_runs(ctx) + hostname_runs(ctx)
     judge(ctx, vs, "C17")
     n, bad = connect_runs(ctx)
     ctx.extra["auto_connect_runs"] = n
